@@ -66,6 +66,26 @@ type RecVal struct {
 	Fields map[string]Value
 }
 type ListVal struct{ Elems []Value }
+
+// FuncRefVal: a named function or a method value used as a value (parse := GetScope; export := rep.ExportWithString).
+type FuncRefVal struct {
+	Fn      *types.Func
+	Recv    Value
+	HasRecv bool
+}
+
+// FuncMapVal: a local dispatch table map[string]func(...)...{"AV": func..., ...} with constant keys.
+type FuncMapVal struct {
+	Keys []Term
+	Vals []Value
+}
+
+// FieldPtrVal: &x.f for a field of a repository struct: the heap location (field array, object reference).
+type FieldPtrVal struct {
+	Key  string
+	Sort string
+	Ref  Term
+}
 type IfaceVal struct {
 	V   Value
 	Dyn types.Type
@@ -543,6 +563,22 @@ type frame struct {
 	info  *types.Info
 	rets  *[]*Path // finished paths of this frame
 	depth int
+	named []*types.Var // named result parameters (a bare return returns their current values)
+}
+
+// bindNamed: named results start at their zero values
+func (fr *frame) bindNamed(p *Path, vars []*types.Var) {
+	fr.named = nil
+	for _, v := range vars {
+		if v == nil || v.Name() == "" || v.Name() == "_" {
+			fr.named = nil
+			return
+		}
+	}
+	for _, v := range vars {
+		p.Vars[v] = zeroValueOf(p.C, v.Type())
+	}
+	fr.named = vars
 }
 
 func one(p *Path, v Value) []PV { return []PV{{p, v}} }
@@ -612,8 +648,16 @@ func (fr *frame) eval(p *Path, e ast.Expr) []PV {
 		}
 		return one(p, &ClosureVal{Lit: e, Env: env, Info: fr.info, Fi: fr.fi})
 	case *ast.StarExpr:
-		c.untranslatable(e.Pos(), "pointer dereference expression")
-		return one(p, OpaqueVal{"star"})
+		var out []PV
+		for _, pv := range fr.eval(p, e.X) {
+			if fp, ok := pv.V.(*FieldPtrVal); ok {
+				out = append(out, PV{pv.P, pv.P.readField(fp.Key, fp.Sort, fp.Ref)})
+				continue
+			}
+			c.untranslatable(e.Pos(), "pointer dereference expression")
+			out = append(out, PV{pv.P, OpaqueVal{"star"}})
+		}
+		return out
 	}
 	c.untranslatable(e.Pos(), fmt.Sprintf("expression %T", e))
 	return one(p, OpaqueVal{"expr"})
@@ -642,6 +686,8 @@ func (fr *frame) evalIdent(p *Path, id *ast.Ident) Value {
 		if t, ok := c.constTerm(o.Val(), o.Type()); ok {
 			return t
 		}
+	case *types.Func:
+		return &FuncRefVal{Fn: o} // a named function used as a value
 	}
 	c.untranslatable(id.Pos(), "identifier "+id.Name)
 	return OpaqueVal{id.Name}
@@ -734,6 +780,18 @@ func (fr *frame) fieldHop(p *Path, base Value, baseT types.Type, f *types.Var, p
 func (fr *frame) evalSelector(p *Path, e *ast.SelectorExpr) []PV {
 	c := p.C
 	if sel, ok := fr.info.Selections[e]; ok {
+		if sel.Kind() == types.MethodVal {
+			// method value x.M: the receiver is evaluated now
+			if fn, ok := sel.Obj().(*types.Func); ok {
+				var out []PV
+				for _, pv := range fr.eval(p, e.X) {
+					idx := sel.Index()
+					v, _ := fr.walkFieldPath(pv.P, pv.V, sel.Recv(), idx[:len(idx)-1], e.Pos())
+					out = append(out, PV{pv.P, &FuncRefVal{Fn: fn, Recv: v, HasRecv: true}})
+				}
+				return out
+			}
+		}
 		if sel.Kind() != types.FieldVal {
 			c.untranslatable(e.Pos(), "method value")
 			return one(p, OpaqueVal{"methodvalue"})
@@ -761,6 +819,8 @@ func (fr *frame) evalSelector(p *Path, e *ast.SelectorExpr) []PV {
 		if t, ok := c.constTerm(o.Val(), o.Type()); ok {
 			return one(p, t)
 		}
+	case *types.Func:
+		return one(p, &FuncRefVal{Fn: o})
 	}
 	c.untranslatable(e.Pos(), "qualified identifier "+e.Sel.Name)
 	return one(p, OpaqueVal{e.Sel.Name})
@@ -798,6 +858,46 @@ func (fr *frame) evalUnary(p *Path, e *ast.UnaryExpr) []PV {
 				}
 				if vs, ok := p.Vars[obj].(ValStructRef); ok {
 					return one(p, vs.Ref) // the variable's own storage
+				}
+			}
+		}
+		// &x.f for a field of a repository struct: the heap location
+		if se, ok := ast.Unparen(e.X).(*ast.SelectorExpr); ok {
+			if sel, ok := fr.info.Selections[se]; ok && sel.Kind() == types.FieldVal {
+				var out []PV
+				okAll := true
+				for _, pv := range fr.eval(p, se.X) {
+					idx := sel.Index()
+					base, bt := fr.walkFieldPath(pv.P, pv.V, sel.Recv(), idx[:len(idx)-1], e.Pos())
+					var named *types.Named
+					var st *types.Struct
+					if pt, ok := bt.Underlying().(*types.Pointer); ok {
+						named, _ = pt.Elem().(*types.Named)
+					} else {
+						named, _ = bt.(*types.Named)
+					}
+					ref, ok1 := asTerm(base)
+					if vs, isVS := base.(ValStructRef); isVS {
+						ref, ok1, named = vs.Ref, true, vs.T
+					}
+					if named != nil {
+						st, _ = named.Underlying().(*types.Struct)
+					}
+					if !ok1 || st == nil {
+						okAll = false
+						break
+					}
+					f := st.Field(idx[len(idx)-1])
+					srt := c.U.sortOfType(f.Type())
+					if srt == SOpaque {
+						okAll = false
+						break
+					}
+					pv.P.safety("nil-deref", tNot(tEq(ref, mkInt(0))), e.Pos())
+					out = append(out, PV{pv.P, &FieldPtrVal{Key: fieldKey(named, f), Sort: srt, Ref: ref}})
+				}
+				if okAll && len(out) > 0 {
+					return out
 				}
 			}
 		}
@@ -1094,6 +1194,37 @@ func (fr *frame) evalIndex(p *Path, e *ast.IndexExpr, commaOk bool) []PV {
 				}
 				q.safety("index", tAnd(tIntCmp(">=", it, mkInt(0)), tIntCmp("<", it, x.Len)), e.Pos())
 				out = append(out, PV{q, x.at(c, it)})
+			case *FuncMapVal:
+				kt, ok := asTerm(iv.V)
+				if !ok {
+					c.untranslatable(e.Pos(), "dispatch table key")
+					out = append(out, PV{q, OpaqueVal{"idx"}})
+					continue
+				}
+				// one path per entry whose key may equal the index, one for "no entry"
+				rest := q
+				for k := range x.Keys {
+					hitP := rest.clone()
+					hitP.assume(tEq(kt, x.Keys[k]))
+					if !hitP.Dead {
+						if commaOk {
+							out = append(out, PV{hitP, &TupleVal{[]Value{x.Vals[k], tTrue}}})
+						} else {
+							out = append(out, PV{hitP, x.Vals[k]})
+						}
+					}
+					rest.assume(tNot(tEq(kt, x.Keys[k])))
+					if rest.Dead {
+						break
+					}
+				}
+				if !rest.Dead {
+					if commaOk {
+						out = append(out, PV{rest, &TupleVal{[]Value{OpaqueVal{"nilfunc"}, tFalse}}})
+					} else {
+						out = append(out, PV{rest, OpaqueVal{"nilfunc"}})
+					}
+				}
 			case *ListVal:
 				it, ok := asTerm(iv.V)
 				n, isC := it.C.(int64)
@@ -1401,6 +1532,38 @@ func (fr *frame) evalCompositeLit(p *Path, e *ast.CompositeLit, addr bool) []PV 
 		}
 		return out
 	}
+	// local dispatch table: map[string]func(...){...} with constant string keys
+	if mt, ok := t.Underlying().(*types.Map); ok {
+		if _, isSig := mt.Elem().Underlying().(*types.Signature); isSig {
+			fm := &FuncMapVal{}
+			okAll := true
+			cur := p
+			for _, el := range e.Elts {
+				kv, ok := el.(*ast.KeyValueExpr)
+				if !ok {
+					okAll = false
+					break
+				}
+				ktv, ok := fr.info.Types[kv.Key]
+				if !ok || ktv.Value == nil {
+					okAll = false
+					break
+				}
+				kt, ok := c.constTerm(ktv.Value, ktv.Type)
+				vs := fr.eval(cur, kv.Value)
+				if !ok || len(vs) != 1 {
+					okAll = false
+					break
+				}
+				cur = vs[0].P
+				fm.Keys = append(fm.Keys, kt)
+				fm.Vals = append(fm.Vals, vs[0].V)
+			}
+			if okAll {
+				return one(cur, fm)
+			}
+		}
+	}
 	// local record / list literals: []struct{...}{{...}, ...}, [...]struct{...}{...}, struct{...}{...}
 	if lv, ok := fr.evalLocalLiteral(p, e, t); ok {
 		return lv
@@ -1505,6 +1668,14 @@ func (fr *frame) execStmt(p *Path, s ast.Stmt) []*Path {
 					fr.finish(pv.P, []Value{pv.V})
 				}
 			}
+			return nil
+		}
+		if len(s.Results) == 0 && len(fr.named) > 0 {
+			var vals []Value
+			for _, v := range fr.named {
+				vals = append(vals, p.Vars[v])
+			}
+			fr.finish(p, vals)
 			return nil
 		}
 		for _, a := range fr.evalExprs(p, s.Results) {
@@ -1632,6 +1803,22 @@ func zeroValueOf(c *Ctx, t types.Type) Value {
 		return &TableVal{MapT: ut}
 	case *types.Slice:
 		return &SliceVal{Known: true, Elems: []Term{}, Len: mkInt(0)}
+	}
+	if st, ok := t.Underlying().(*types.Struct); ok {
+		if named, isNamed := t.(*types.Named); !isNamed || named.Obj().Pkg() == nil || pkgAlias[named.Obj().Pkg().Path()] == "" {
+			isLib := false
+			if isNamed && named.Obj().Pkg() != nil {
+				pp := named.Obj().Pkg().Path()
+				isLib = pp == "strings" || pp == "bytes" || strings.HasPrefix(pp, "golang.org/")
+			}
+			if !isLib {
+				rv := &RecVal{Fields: map[string]Value{}}
+				for j := 0; j < st.NumFields(); j++ {
+					rv.Fields[st.Field(j).Name()] = zeroValueOf(c, st.Field(j).Type())
+				}
+				return rv
+			}
+		}
 	}
 	if named, ok := t.(*types.Named); ok && named.Obj().Pkg() != nil {
 		// var r strings.Builder / var b bytes.Buffer: the zero value is the empty builder (methods are called on the variable)
@@ -1821,6 +2008,20 @@ func (fr *frame) assignTo(p *Path, lhs ast.Expr, v Value, define bool) []*Path {
 			q.safety("nil-deref", tNot(tEq(ref, mkInt(0))), l.Pos())
 			q.writeField(fieldKey(named, f), c.U.sortOfType(f.Type()), ref, vt)
 			out = append(out, q)
+		}
+		return out
+	case *ast.StarExpr:
+		var out []*Path
+		for _, pv := range fr.eval(p, l.X) {
+			fp, ok := pv.V.(*FieldPtrVal)
+			vt, ok2 := asTerm(v)
+			if !ok || !ok2 {
+				c.untranslatable(l.Pos(), "assignment through a pointer")
+				out = append(out, pv.P)
+				continue
+			}
+			pv.P.writeField(fp.Key, fp.Sort, fp.Ref, vt)
+			out = append(out, pv.P)
 		}
 		return out
 	case *ast.IndexExpr:
